@@ -91,6 +91,19 @@ def gen_case(g, prop):
         if subs:
             d = g.choice(subs); cand = d[:g.randint(1, len(d) - 1)]
             if cand.lower() not in taken and cand not in ('.', '..'): case['nested_name'] = cand
+    elif output == 'nested' and inp['kind'] == 'dir':
+        # ... or exactly like a directory that exists DEEPER in the tree (docs/ below the input, src/docs/ with CMake files): whatever is
+        # done to keep CMinx away from its own output must not touch the namesake
+        deeper = set()
+        def below(ch, depth):
+            for c in ch:
+                if 'children' in c:
+                    if depth >= 1: deeper.add(c['name'])
+                    below(c['children'], depth + 1)
+        below(children, 0)
+        taken = {c['name'].lower() for c in children}
+        cands = sorted(d for d in deeper if d.lower() not in taken)
+        if cands: case['nested_name'] = g.choice(cands)
     if prop == 'C12' and inp['kind'] == 'dir' and g.random() < 0.3:
         # an explicit @module name spelled exactly like the module name (or title) CMinx would derive anyway
         cands = []
